@@ -364,6 +364,23 @@ func runCliCase(c *cliCase) (vs []cliViolation, nontrivial bool) {
 			bad("roundtrip-stdio-differs", "%d bytes restored, %d original", len(back), len(content[f.Rel]))
 		}
 		nontrivial = f.Size > 0
+	case "stdio-default":
+		// stdin as input and nothing else said: the output goes to stdout by default and the default verbosity applies
+		f := c.Files[0]
+		r1, so := runTool(work, content[f.Rel], wall, nil, append(append([]string{"-c"}, c.Opts...), "-i", "stdin")...)
+		if r1.exit != 0 {
+			bad("compress-exit", "compress -i stdin (no -o) exits %d: %s", r1.exit, r1.out)
+			return
+		}
+		r2, back := runTool(work, so, wall, nil, append(append([]string{"-d"}, c.DOpts...), "-i", "stdin")...)
+		if r2.exit != 0 {
+			bad("decompress-exit", "decompress -i stdin (no -o) of what compress -i stdin wrote exits %d: %s", r2.exit, r2.out)
+			return
+		}
+		if !bytes.Equal(back, content[f.Rel]) {
+			bad("roundtrip-stdio-differs", "%d bytes restored, %d original", len(back), len(content[f.Rel]))
+		}
+		nontrivial = f.Size > 0
 	case "no-overwrite":
 		f := c.Files[0]
 		existing := filepath.Join(work, "exists.knz")
@@ -678,6 +695,7 @@ func c19(run *core.Run, replay string) {
 		cases = append(cases, &cliCase{Kind: "no-overwrite", Files: randomTree(r, 1, 20000), Opts: optSets[(i*3)%len(optSets)], Seed: S + int64(i)})
 		cases = append(cases, &cliCase{Kind: "same-file", Files: randomTree(r, 1, 20000), Opts: optSets[(i*5)%len(optSets)], Seed: S + int64(i)})
 		cases = append(cases, &cliCase{Kind: "force-overwrite", Files: randomTree(r, 1, 70000), Opts: optSets[(i*7)%len(optSets)], DOpts: []string{"-j", "2"}, Seed: S + int64(i)})
+		cases = append(cases, &cliCase{Kind: "stdio-default", Files: randomTree(r, 1, 50000), Opts: optSets[(i*17)%len(optSets)], DOpts: []string{"-j", "2"}, Seed: S + int64(i)})
 		cases = append(cases, &cliCase{Kind: "rm-none", Files: randomTree(r, 1, 20000), Opts: optSets[(i*11)%len(optSets)], DOpts: []string{"-j", "1"}, Seed: S + int64(i)})
 		cases = append(cases, &cliCase{Kind: []string{"tree-outdir-noforce", "tree-outdir-dotslash", "tree-outdir-slash"}[i%3], Files: append(randomTree(r, 4, 20000), cliTreeFile{Rel: "sub/deep/x.txt", Shape: "text", Size: 3000}, cliTreeFile{Rel: "t/t.bin", Shape: "random", Size: 500}),
 			Opts: optSets[(i*13)%len(optSets)], DOpts: []string{"-j", "2"}, Seed: S + int64(i)})
